@@ -285,6 +285,23 @@ def registry_leg(ctx):
         sub = selectq.bql.select_ast([(ast.Column(cn), 'x')], 'types')
         stmt = selectq.bql.select_ast([(ast.Column('x'), 'r')], sub)
         run_event(conn, stmt, 'subquery:%s' % cn, events, ctx)
+    # ... and only those: a sequence of subqueries with different output names, each also asked for the previous one's name
+    # (must be rejected; if it is accepted its values are judged against what it announces), for its wildcard and, between
+    # them, a statement without FROM naming the last output
+    prev = None
+    for cn in cols:
+        name = 'x_' + cn
+        sub = selectq.bql.select_ast([(ast.Column(cn), name)], 'types')
+        run_event(conn, selectq.bql.select_ast([(ast.Column(name), 'r')], sub), 'subquery-seq:%s' % cn, events, ctx, fmt=False)
+        status, desc, rows = selectq.run_query(conn, selectq.bql.select_ast('*', selectq.bql.select_ast([(ast.Column(cn), name)], 'types')))
+        if status != 'ok' or [c.name for c in desc] != [name] or any(len(r) != 1 for r in rows):
+            events.append({'what': 'subquery-seq:star:%s' % cn, 'declared': '?', 'mro': [], 'exc': 'TypeError', 'phase': 'run',
+                           'msg': 'SELECT * over a one-column subquery: %s' % (repr(desc)[:120])})
+        if prev is not None:
+            sub2 = selectq.bql.select_ast([(ast.Column(cn), name)], 'types')
+            run_event(conn, selectq.bql.select_ast([(ast.Column(prev), 'r')], sub2), 'subquery-seq:stale:%s' % cn, events, ctx, fmt=False)
+            st = run_event(conn, ast.Select([ast.Target(ast.Column(prev), 'r')], None, None, None, None, None, None, None), 'subquery-seq:nofrom:%s' % cn, events, ctx, fmt=False)
+        prev = name
     return events, uncovered
 
 
